@@ -13,7 +13,16 @@ pub(super) fn decode(src: &mut &[u8], len: usize) -> io::Result<Vec<u8>> {
         .zip(uncompressed_sizes)
         .map(|(compressed_size, uncompressed_size)| {
             let buf = split_off(src, compressed_size)?;
-            super::decode(buf, uncompressed_size)
+            let chunk = super::decode(buf, uncompressed_size)?;
+
+            if chunk.len() == uncompressed_size {
+                Ok(chunk)
+            } else {
+                Err(io::Error::new(
+                    io::ErrorKind::InvalidData,
+                    "stripe chunk uncompressed size mismatch",
+                ))
+            }
         })
         .collect::<io::Result<_>>()?;
 
